@@ -211,3 +211,39 @@ META["C20"] = dict(
     },
     assumptions=["numeric strings are judged only on the direct cast (argv/config text is typed by the loader first)"],
 )
+
+META["C03"] = dict(
+    title="Every parse failure surfaces as ArgumentError or exit status 2, nothing else",
+    level="exploration",
+    level_text="Boundary monitor on the outcome class of all five parse methods under a grammar fuzzer: argv over known / unknown "
+    "/ malformed option names with well- and ill-formed values (broken JSON/YAML, anchors and aliases incl. self-referential, "
+    "tags, non-importable and non-class import paths, wrong-typed class_path/init_args, missing files, directories), hostile "
+    "config texts, environment mappings and Python objects, over five parser shapes (flat+groups, class/dataclass arguments, "
+    "nested subcommands, links, positionals) in both exit_on_error modes. Termination is judged on a logical step budget "
+    "(4e6 Python function entries per call, counted with sys.monitoring), not on wall-clock time.",
+    level_note="Trusted: the classification of documented outcomes (Namespace, ArgumentError, exit 2 with usage+error, exit 0 for "
+    "help/print_config). Sampled inputs; a wall-clock watchdog firing is INCONCLUSIVE.",
+    shards=g(4, 16),
+    budget=g(45, 300),
+    technique="outcome-class monitor at the API boundary under grammar fuzzing, with a sys.monitoring step budget as termination oracle",
+    rule="a case is (parser shape, exit_on_error, method, tuple of token/value classes); distinct by hash; every case is non-trivial "
+    "(a call was made and classified).",
+    gates={
+        "mon.outcome_class": g(4000, 60000),
+        "st.accepted": g(300, 4000),
+        "st.rejected": g(1500, 20000),
+        "st.exit_on_error.True": g(1000, 15000),
+        "st.exit_on_error.False": g(1000, 15000),
+        "ev.parse_args.ArgumentError": g(500, 5000),
+        "ev.parse_args.exit2": g(300, 3000),
+        "ev.parse_string.ArgumentError": g(50, 500),
+        "ev.parse_object.ArgumentError": g(50, 500),
+        "ev.parse_path.ArgumentError": g(20, 200),
+        "ev.parse_env.ArgumentError": g(20, 200),
+        "st.shape.classes": g(500, 5000), "st.shape.sub": g(500, 5000), "st.shape.links": g(500, 5000),
+    },
+    assumptions=[
+        "only documented keyword arguments are passed; stdin is /dev/null",
+        "objects handed to parse_object may be arbitrary Python values (the statement says 'whatever the input')",
+    ],
+)
